@@ -72,6 +72,8 @@ def dispatch(reg, qual, names, choose, contracts):
         if c is None:
             raise Unsupported('%s: no abstract contract for variant %r' % (qual, key))
         E.registry.used.add(c.target)
+        if 'output' in kwargs and 'output' not in c.params:
+            kwargs = {k: v for k, v in kwargs.items() if k != 'output'}
         return apply_contract(E, c, st, args, kwargs)
     reg.models[qual] = model
 
@@ -105,6 +107,35 @@ def by_output(reg, c, result='bytes'):
                 outs.extend(apply_contract(E, c2, s1, [env[n] for n in names], {}))
             else:
                 outs.extend(apply_contract(E, c, s1, [env[n] for n in [x.arg for x in fi.node.args.args]], {}))
+        return outs
+    reg.models[c.target] = model
+
+
+def bytearray_fields_at_call_sites(reg, c, typed):
+    """call-site use of the contract of a REAL method whose frame contains the DATA of a bytearray-valued field (written
+    `self._cache.*` in `modifies` for the proof).  The engine's call-site havoc does not descend into a bytearray, so calls
+    are routed to a clone whose frame gives the field a FRESH bytearray of the declared size (typed: {'self._cache':
+    'bytearray[16]'}); the postconditions then say what it holds.  Sound for callers that keep no alias of the old
+    bytearray (none in this code base).  The contract under proof is `c` itself."""
+    import copy
+    from vf.pyvc import loader
+    from vf.pyvc.interp import FuncV
+    reg.add(c)
+    c2 = copy.copy(c)
+    c2.target = c.target + '#call'
+    c2.params = dict({'self': 'any'}, **c.params)
+    c2.modifies = dict({m: None for m in c.modifies if not m.endswith('.*')}, **typed)
+    reg.contracts[c2.target] = c2
+
+    def model(E, st, args, kwargs):
+        fi = loader.find_function(c.target)
+        outs = []
+        for b in E.bind_params(FuncV(fi), args, kwargs, st):
+            if b[0] == 'raise':
+                outs.append(b)
+                continue
+            _, s1, env = b
+            outs.extend(apply_contract(E, c2, s1, [env[n] for n in c2.params], {}))
         return outs
     reg.models[c.target] = model
 
@@ -181,11 +212,30 @@ def add_blake2s_compare(reg):
 
 
 def add_strxor(reg):
-    """Crypto.Util.strxor.strxor(term1, term2) without output=: the uninterpreted xor of spec.aead1"""
-    reg.add(Contract('Crypto.Util.strxor.strxor', params={'term1': 'bytes', 'term2': 'bytes', 'output': 'none'},
-                     raises={'ValueError': ('iff', 'len(term1) != len(term2)')},
-                     returns='spec.aead1.xor(bytes(term1), bytes(term2))', modifies=[], options={'exact': True},
-                     assumed='native strxor (bounded: bounded/modes.py EAX/CMAC results against the reference composition)'))
+    """Crypto.Util.strxor.strxor(term1, term2) without output=.  For 8- and 16-byte operands (cipher blocks) the result is the
+    exact bytewise xor (bxor: bit-vector xor per byte, so associativity/commutativity are available to the proofs); other
+    lengths: the uninterpreted xor of spec.aead1"""
+    why = 'native strxor (src/strxor.c; bounded: bounded/modes.py EAX / bounded/hashes.py CMAC results against the reference composition)'
+    cs = {'any': Contract('Crypto.Util.strxor.strxor#any', params={'term1': 'bytes', 'term2': 'bytes'},
+                          raises={'ValueError': ('iff', 'len(term1) != len(term2)')},
+                          returns='spec.aead1.xor(bytes(term1), bytes(term2))', modifies=[], options={'exact': True}, assumed=why)}
+    for n in (8, 16):
+        cs[n] = Contract('Crypto.Util.strxor.strxor#%d' % n, params={'term1': 'bytes', 'term2': 'bytes'},
+                         requires=['len(term1) == %d' % n], raises={'ValueError': ('iff', 'len(term2) != %d' % n)},
+                         returns='spec.aead1.bx(bytes(term1), bytes(term2), %d)' % n, modifies=[], options={'exact': True}, assumed=why)
+
+    def choose(E, st, env):
+        if env.get('output') is not None:
+            return None
+        env.pop('output', None)
+        t1 = env['term1']
+        if isinstance(t1, Ref):
+            t1 = st.heap[t1.oid].items
+        for n in (16, 8):
+            if E.implied(st, z3.Length(zbytes(t1)) == n):
+                return n
+        return 'any'
+    dispatch(reg, 'Crypto.Util.strxor.strxor', ['term1', 'term2', 'output'], choose, cs)
 
 
 # ---------------------------------------------------------------- block-cipher module and its cipher objects
@@ -202,14 +252,21 @@ def add_block_cipher(reg, bs="int"):
                      raises={'ValueError': ('iff', 'len(plaintext) % self.g_bs != 0')},
                      returns='spec.aead1.E(self.g_fid, self.g_key, bytes(plaintext))', modifies=[], options={'exact': True},
                      assumed='native ECB (bounded: bounded/blockciphers.py + bounded/modes.py ECB vs reference)'))
-    # --- CBC object: position-indexed -- the ciphertext of everything fed so far is cbc(iv0, fed); a call returns the new part
+    # --- CBC object: position-indexed -- ghost g_iv = the IV it was created with, g_fed = all plaintext so far; the j-th
+    # ciphertext block ever produced is cbc_chain(g_iv, first j blocks of g_fed)
     reg.add(ClassContract(CBC, fields={'g_fid': 'int', 'g_key': 'bytes', 'g_bs': 'int', 'g_iv': 'bytes', 'g_fed': 'bytes'},
                           valid=['len(self.g_iv) == self.g_bs', 'len(self.g_fed) % self.g_bs == 0'], abstract=True))
     reg.add(Contract(CBC + '.encrypt', params={'self': 'obj:' + CBC, 'plaintext': 'bytes'},
                      raises={'ValueError': ('iff', 'len(plaintext) % self.g_bs != 0')},
-                     returns='spec.aead1.cbc(self.g_fid, self.g_key, self.g_iv, old(self.g_fed) + bytes(plaintext))[len(old(self.g_fed)):]',
-                     sets={'self.g_fed': 'old(self.g_fed) + bytes(plaintext)'}, modifies=['self.g_fed'], options={'exact': True},
-                     assumed='native CBC (bounded: bounded/modes.py CBC vs reference, all two/three-way cuts)'))
+                     result='bytes',
+                     ensures={'len': 'len(result) == len(plaintext)',
+                              # block j of the output is the chaining value after the j-th block: the last two are all CMAC reads
+                              'last': 'impl(len(plaintext) >= self.g_bs, result[len(plaintext) - self.g_bs:] == '
+                                      'spec.aead1.cbc_chain(self.g_fid, self.g_key, self.g_iv, self.g_fed))',
+                              'second_last': 'impl(len(plaintext) >= 2 * self.g_bs, result[len(plaintext) - 2 * self.g_bs:len(plaintext) - self.g_bs] == '
+                                             'spec.aead1.cbc_chain(self.g_fid, self.g_key, self.g_iv, self.g_fed[:len(self.g_fed) - self.g_bs]))'},
+                     sets={'self.g_fed': 'old(self.g_fed) + bytes(plaintext)'}, modifies=['self.g_fed'],
+                     assumed='native CBC (src/raw_cbc.c; bounded: bounded/modes.py CBC vs reference, all two/three-way cuts)'))
     # --- CTR object
     add_ctr(reg)
     # --- factory.new
